@@ -75,6 +75,7 @@ func init() {
 		"(reflect.rtype).Elem":          ext۰reflect۰rtype۰Elem,
 		"(reflect.rtype).Key":           ext۰reflect۰rtype۰Key,
 		"(reflect.rtype).Field":         ext۰reflect۰rtype۰Field,
+		"(reflect.rtype).FieldByName":   ext۰reflect۰rtype۰FieldByName,
 		"(reflect.rtype).In":            ext۰reflect۰rtype۰In,
 		"(reflect.rtype).Kind":          ext۰reflect۰rtype۰Kind,
 		"(reflect.rtype).NumField":      ext۰reflect۰rtype۰NumField,
